@@ -25,7 +25,8 @@
 //                A bit  atomic-and (_mi_bitmap_unclaim) / O bit  atomic-or (_mi_bitmap_claim) of the bit of segment <id> in
 //                       arena->blocks_abandoned; old/new = the bit
 //                L field  load of a blocks_abandoned field by a cursor: id = <arena>.<field>, ids = segments whose bit is set
-//                + count / - count / L count    subproc->abandoned_count (id = sub-process number)
+//                + count / - count / L count    subproc->abandoned_count (id = sub-process number: 0 = the main one, 1 = the second
+//                       one of the VERIF_SUBPROC variant, which odd threads join before their first allocation)
 //                + oscount / - oscount / L oscount   subproc->abandoned_os_list_count
 //                K lock  try-acquire of abandoned_os_lock (new = 1, old = 1 when it failed)   B lock  blocking acquire succeeded
 //                U lock  release; ids = the abandoned_os_list (head first) at the release
